@@ -6,7 +6,7 @@ use indexmap::IndexSet;
 use num_rational::BigRational as NumRat;
 use num_traits::{sign::Signed, One, ToPrimitive, Zero};
 use serde_derive::{Deserialize, Serialize};
-use std::cmp::Ord;
+use std::cmp::{self, Ord};
 use std::fmt;
 use std::ops::{Add, Div, Mul, Neg, Rem, Sub};
 
@@ -125,7 +125,9 @@ impl BigRat {
             let ndigits = match digits {
                 Digits::Default | Digits::Scientific | Digits::Engineering => 6,
                 Digits::FullInt | Digits::Fraction => 1000,
-                Digits::Digits(n) => intdigits as i32 + n as i32,
+                Digits::Digits(n) => {
+                    cmp::min((intdigits as u64).saturating_add(n), i32::MAX as u64) as i32
+                }
             };
             // Conditions for exiting:
             // 1. The number is already exact and all the integer
